@@ -14,6 +14,8 @@
 (*   invoke / inner / return   a client call entering the middleware, the  *)
 (*           wrapped storage executing it, the call returning              *)
 (*   close   Stop()                                                        *)
+(*   open_failed  NewFileSink refused the existing file (never a step of   *)
+(*           the model: the written log always verifies)                   *)
 (*   verify  tool.Verify on the final file                                 *)
 (* A line the model cannot take is reported as "mismatch"; a returned call *)
 (* that the model explains only through D-C26-unaudited-ops is a finding.  *)
